@@ -23,13 +23,14 @@ FLOORS = {
               "counters": {"compares": 2500, "module_export_checks": 500,
                            "f_include_without_context": 100, "f_import_with_context": 100,
                            "f_ignore_missing": 100, "f_include_list": 100, "f_include_object": 50,
-                           "f_in_loop": 100, "f_in_macro": 100, "f_in_with": 100}},
+                           "f_in_loop": 100, "f_in_macro": 100, "f_in_with": 100,
+                           "f_in_block": 50, "f_in_block_after_set": 30}},
     "thorough": {"evaluations": 50000, "distinct": 150,
                  "counters": {"compares": 50000, "module_export_checks": 10000,
                               "f_include_without_context": 2000, "f_import_with_context": 2000,
                               "f_ignore_missing": 2000, "f_include_list": 2000,
                               "f_include_object": 1000, "f_in_loop": 2000, "f_in_macro": 2000,
-                              "f_in_with": 2000}},
+                              "f_in_with": 2000, "f_in_block": 1000, "f_in_block_after_set": 600}},
 }
 
 
